@@ -23,6 +23,9 @@ _ALLOWED_FUNCTIONS: dict[str, Callable[..., sympy.Expr]] = {
     "min": sympy.Min,
     "Min": sympy.Min,
     "floor": sympy.floor,
+    "ceiling": sympy.ceiling,
+    "sign": sympy.sign,
+    "Abs": sympy.Abs,
     "sqrt": sympy.sqrt,
     "mod": sympy.Mod,
     "Mod": sympy.Mod,
